@@ -669,6 +669,9 @@ def run(ctx, progs):
         contract_kinds(prog)
         from ..failsum import FailSummaries
         prog._c07_failsum = FailSummaries(prog, eff)
+        from .. import bounds as _bounds
+        _fs = prog._c07_failsum
+        _bounds.set_sum_hook(lambda path, _fs=_fs: (_fs.S.checked_sum(_fs._body(path).id) if _fs._body(path) is not None else None))
         n_bodies = n_edges = n_auto = n_tab = 0
         n_loops = 0
         for b in prog.bodies:
